@@ -416,6 +416,37 @@ def main():
                 fail('rule-breaking mutation accepted: ' + kind, t2, 'parse_string returned a schema')
             elif out != 'schema_error':
                 fail('mutation %s: %s' % (kind, out), t2, detail)
+    # numeral robustness: every number position of a valid schema (arities, defaults, facet values) replaced by awkward
+    # numerals; whatever the parser decides, only a schema or a SchemaError may come out, and an accepted arity must be
+    # the integer that was written
+    import re as _re
+    WEIRD = ['1e999', '1e400', '-1e999', '3.0', '1e2', '99999999999999999999', '9007199254740993', '-1', '0', '00', '.5', '1.', '1e', '0x10', 'nan', 'inf']
+    for i in range(max(20, n_valid // 4)):
+        base = render(gen_spec(rnd))
+        spots = [m_ for m_ in _re.finditer(r'(?<![A-Za-z_0-9])-?\d+(?:\.\d+)?', base)]
+        if not spots:
+            continue
+        for w in WEIRD:
+            m_ = rnd.choice(spots)
+            text = base[:m_.start()] + w + base[m_.end():]
+            out, detail = run_one(ms, text)
+            counts['random'] += 1
+            if out not in ('schema', 'schema_error'):
+                fail('awkward numeral %r: %s' % (w, out), text, detail)
+            elif out == 'schema' and base[max(0, m_.start() - 1)] in '[.' and w.isdigit():
+                pass
+        # exact arity read-back for big integer literals
+        for lit in ('9007199254740993', '12345678901234567890'):
+            text = 'element e { a: double[%s] }\n' % lit
+            try:
+                sch = ms.parse_string(text)
+                got = sch.elements['e'].members[0].arity
+                if got.lo != int(lit) or got.hi != int(lit):
+                    fail('arity literal not read back exactly', text, 'arity %r' % (got,))
+            except ms.SchemaError:
+                pass
+            except BaseException as e:      # noqa
+                fail('arity literal: escaped', text, type(e).__name__)
     for i in range(n_valid * 3):
         text = ' '.join(rnd.choice(TOKENS) for _ in range(rnd.randint(1, 25)))
         if rnd.random() < 0.5:      # splice random tokens into a valid schema
@@ -439,7 +470,7 @@ def main():
     total = sum(counts.values())
     ok = not failures
     chk.external('bounded/contract_holds_on_every_explored_text', ok, 'bounded exploration (contract as oracle)', detail=str(failures[:2])[:600],
-                 model={'failures': failures} if failures else None)
+                 model={'reproduced': True, 'ran': 'the real parse_string on the texts below', 'failures': failures} if failures else None)
     chk.extra_cov.update({'evaluations': total, 'distinct_nontrivial': len(distinct), 'samples': samples,
                           'rule': 'generated valid schemas must parse to a schema satisfying the independent rule re-check; each of %d rule-breaking mutations must raise SchemaError; '
                                   'random token streams and deep use chains must return a schema or raise SchemaError with a line inside the text; '
